@@ -521,7 +521,10 @@ func (e *Engine) sortTotalOrder(ml *mapLoop, c *Contract, call *ast.CallExpr, st
 	}
 	e.assume("true", and(eq(at(i.T), ka.T), eq(at(j.T), kb.T)))
 	// identity of keys beyond the key value itself
-	if fields := strings.Fields(c.Opts["sortkey"]); len(fields) > 0 {
+	// `opt sortstrings FIELD...`: string fields that less compares; Go's string order decides any two different strings
+	// (a fact of the language, instantiated for the two keys - not an assumption on the data)
+	identity := c.Opts["sortkey"] != ""
+	if fields := strings.Fields(c.Opts["sortkey"] + " " + c.Opts["sortstrings"]); len(fields) > 0 {
 		pt, ok := types.Unalias(mt.Key()).Underlying().(*types.Pointer)
 		var stt *types.Struct
 		if ok {
@@ -553,8 +556,34 @@ func (e *Engine) sortTotalOrder(ml *mapLoop, c *Contract, call *ast.CallExpr, st
 				e.assume("true", or(same, sx("op_strlt", fa.T, fb.T), sx("op_strlt", fb.T, fa.T)))
 			}
 		}
-		e.assume("true", or(differ...))
-		e.stubsUsed["assumed identity of sorted keys: two distinct keys of "+exprStr(rs.X)+" differ in one of the fields "+strings.Join(fields, ", ")] = true
+		if identity {
+			e.assume("true", or(differ...))
+			e.stubsUsed["assumed identity of sorted keys: two distinct keys of "+exprStr(rs.X)+" differ in one of the fields "+strings.Join(fields, ", ")] = true
+		}
+	}
+	// `opt sortinjective M...`: M is a map variable read by less; assumed of the data: it holds every sorted key and
+	// gives distinct keys distinct values (e.g. the position at which a key was first entered in a work list)
+	for _, name := range strings.Fields(c.Opts["sortinjective"]) {
+		var mv *types.Var
+		for v := range seen {
+			if v.Name() == name {
+				mv = v
+			}
+		}
+		if mv == nil {
+			fail("opt sortinjective: the sort does not read a variable " + name)
+			return
+		}
+		imt, ok := types.Unalias(mv.Type()).Underlying().(*types.Map)
+		if !ok || !types.Identical(imt.Key(), mt.Key()) {
+			fail("opt sortinjective: " + name + " is not a map over the sorted keys")
+			return
+		}
+		im := e.lookupVar(st, mv, rs.Pos())
+		va, hasA := e.mapGet(st, im, imt, ka)
+		vb, hasB := e.mapGet(st, im, imt, kb)
+		e.assume("true", and(hasA, hasB, not(e.equal(va, vb, rs.Pos()))))
+		e.stubsUsed["assumed of the data: "+name+" holds every key of "+exprStr(rs.X)+" and maps distinct keys to distinct values"] = true
 	}
 	s1 := st.clone()
 	r1 := e.inlineClosure(call, lit, []Value{i, j}, s1)
